@@ -14,7 +14,7 @@ RULE = (
     "(quick) / <= 6 (thorough, 36 M histories); 4 nodes, 32 ops, length <= 3 (thorough; <= 2 quick); (b) every two-op history over 4 nodes whose second op "
     "is a list op over any non-empty operand subset (overlap case), both orientations, connect and disconnect; (c) Hypothesis: random "
     "operation lists over up to 8 (quick) / 16 (thorough) modules using every spelling (>>, <<, ~, lists, ModuleList chaining, "
-    "project.connect with mixed ~ operands, cross-project operands, new_module in between). Oracle: reference model = set of ordered "
+    "project.connect with mixed ~ operands, cross-project operands alone and mixed with own modules in one refused request, link operations inside the other project, save() and new_module in between). Oracle: reference model = set of ordered "
     "pairs; after every step pairs(in-tables) == pairs(out-tables) == model, no duplicates, slot-by-slot mutual consistency. "
     "non-trivial = history with a reconnect after a disconnect, a list op overlapping an existing link, or a freed slot in the middle"
 )
